@@ -15,6 +15,7 @@ WITNESS = {
     "partition_mut": "partition",
     "get_from_sorted_mut": "select",
     "get_many_from_sorted_mut": "select_many",
+    "remove_nan_mut": "nanview",
     "_get_many_from_sorted_mut_unchecked": "select_many",
 }
 
@@ -45,6 +46,17 @@ PROPS = {
         "assumptions": [A_ND, A_RNG, A_ORD, A_STD, A_VERUS, A_EXTRACT, A_ENUM],
         "assumed_repo_fns": ["src/sort.rs get_many_from_sorted_mut_unchecked: last expression `indexes.iter().cloned().zip(values.into_iter()).collect()` replaced by verif_zip_collect (R8) with an assumed contract; checked bounded by enum:select_many"],
         "not_decided": [],
+    },
+    "C04": {
+        "level": "proof",
+        "level_text": "Verus discharges, for every element type implementing MaybeNan, every length and every missing-value pattern, that the real generic compaction returns a view without missing values whose elements plus an all-missing tail are exactly the input multiset (hence length = number of non-missing elements), leaves that tail in the parent view, never indexes out of range, and returns an all-present input unchanged (idempotence; determinism is syntactic: no random choice in the body). The stride-aware unsafe view rebuilding (cast_view_mut and the two typed wrappers generated by macros) is outside Verus and is checked bounded at the memory level on the real crate",
+        "level_note": "trusted: A-ND incl. slice_move's frame; bounded (never counted as proof): enum:nanview - lengths <= 4 (quick) / 6 (thorough), steps +-1..3, offsets 0/3 in a guarded 26-element parent, all patterns, 6 (quick) / 14 (thorough) element types: address containment, no missing value reachable through the not-NaN type, frame, determinism, idempotence",
+        "technique": "Verus loop invariants on the extracted remove_nan_mut body; bounded memory-level enumeration of the unsafe view builders",
+        "design_ref": "DESIGN.md 4 (C04)",
+        "verus": [("nan", "N")],
+        "enum": [{"name": "nanview"}],
+        "assumptions": [A_ND, A_VERUS, A_EXTRACT, A_ENUM, "unsafe code (cast_view_mut, Option<T>::remove_nan_mut pointer casts, NotNone::deref's unreachable_unchecked) is outside Verus; covered only by the bounded memory-level enumeration"],
+        "not_decided": ["soundness of the unsafe view builders beyond the enumerated bound"],
     },
     "C15": {
         "level": "proof",
